@@ -161,7 +161,13 @@ func (fs *ReaderFS) readErr(r io.Reader) error {
 	case err := <-errs:
 		return err
 	case <-done:
-		return nil
+		// a background writer reports its error right before it finishes, so both channels can be ready: the error wins
+		select {
+		case err := <-errs:
+			return err
+		default:
+			return nil
+		}
 	}
 }
 
